@@ -460,6 +460,17 @@ class SymExec(object):
                 return CondExpr()
             if name == "aml.Constraint":
                 return Constraint(kwargs.get("expr", args[0] if args else None))
+        if name == "zip" and args and all(isinstance(a, (list, tuple)) for a in args):
+            return [tuple(x) for x in zip(*args)]
+        if name == "enumerate" and len(args) == 1 and isinstance(args[0], (list, tuple)):
+            return [(i, x) for i, x in enumerate(args[0])]
+        if name == "range" and args and all(isinstance(a, int) and not isinstance(a, bool) for a in args) and len(range(*args)) <= 64:
+            return list(range(*args))
+        if name == "getattr" and len(args) == 2 and isinstance(args[1], str) and len(n.args) == 2:
+            return self.ev(ast.copy_location(ast.Attribute(value=n.args[0], attr=args[1], ctx=ast.Load()), n), st)
+        if name == "setattr" and len(args) == 3 and isinstance(args[1], str) and len(n.args) == 3:
+            self.assign(ast.copy_location(ast.Attribute(value=n.args[0], attr=args[1], ctx=ast.Store()), n), args[2], st, n)
+            return None
         if name in ("len",) and args and isinstance(args[0], (list, tuple)):
             return len(args[0])
         if name in ("list", "tuple") and args and isinstance(args[0], (list, tuple)):
@@ -653,7 +664,8 @@ class SymExec(object):
         tgt_text = unparse(s.target)
         declared = set(st.env)
         # literal iteration over a python list of constants: unroll
-        if isinstance(it, (list, tuple)) and len(it) <= 12 and (self.unroll_opaque or not any(isinstance(x, Opaque) for x in it)):
+        paired = isinstance(s.iter, ast.Call) and dotted(s.iter.func) in ("zip", "enumerate")     # a literal pairing: always unrolled
+        if isinstance(it, (list, tuple)) and len(it) <= 16 and (self.unroll_opaque or paired or not any(isinstance(x, Opaque) for x in it)):
             states = [st]
             for x in it:
                 nxt = []
